@@ -66,14 +66,17 @@ class LocalExecutableChecker(experiment.model.interface.ExecutableChecker):
     cache = {}
 
     @classmethod
-    def cache_command(cls, command, resolved_executable):
-        # type: (Command, str) -> None
-        cls.cache[cls.hash_command(command)] = resolved_executable
+    def cache_command(cls, command, resolved_executable, resolvePath=False):
+        # type: (Command, str, bool) -> None
+        cls.cache[cls.hash_command(command, resolvePath)] = resolved_executable
 
     @classmethod
-    def hash_command(cls, command):
-        # type: (Command) -> Tuple[Union[str, Tuple[str, str]], ...]
-        the_hash = [command._executable, ]
+    def hash_command(cls, command, resolvePath=False):
+        # type: (Command, bool) -> Tuple[Union[str, bool, Tuple[str, str]], ...]
+        # VV: The outcome of findExecutable() depends on whether links are followed: resolvePath is part of the key,
+        # otherwise the first component to be checked decides for every other component with the same executable
+        # and environment (resolvePath: false would return the link target and vice versa)
+        the_hash = [command._executable, bool(resolvePath)]
         environment = command._environment
 
         sorted_keys = sorted(environment)
@@ -84,13 +87,13 @@ class LocalExecutableChecker(experiment.model.interface.ExecutableChecker):
         return tuple(the_hash)
 
     @classmethod
-    def is_command_hashed(cls, command):
-        return cls.hash_command(command) in cls.cache
+    def is_command_hashed(cls, command, resolvePath=False):
+        return cls.hash_command(command, resolvePath) in cls.cache
 
     @classmethod
-    def get_hashed_command(cls, command):
-        # type: (Command) -> str
-        return cls.cache[cls.hash_command(command)]
+    def get_hashed_command(cls, command, resolvePath=False):
+        # type: (Command, bool) -> str
+        return cls.cache[cls.hash_command(command, resolvePath)]
 
     def __init__(self):
 
@@ -161,8 +164,8 @@ class LocalExecutableChecker(experiment.model.interface.ExecutableChecker):
              If the executable path is absolute and resolvePath is False this method does nothing and will return the same path.
          '''
 
-        if LocalExecutableChecker.is_command_hashed(command):
-            executableWithPath = LocalExecutableChecker.get_hashed_command(command)
+        if LocalExecutableChecker.is_command_hashed(command, resolvePath):
+            executableWithPath = LocalExecutableChecker.get_hashed_command(command, resolvePath)
             return executableWithPath
 
         if os.path.split(command._executable)[0] == "":
@@ -190,7 +193,7 @@ class LocalExecutableChecker(experiment.model.interface.ExecutableChecker):
         else:
             self.log.warning("executableWithPath is '%s'" % executableWithPath)
 
-        LocalExecutableChecker.cache_command(command, executableWithPath)
+        LocalExecutableChecker.cache_command(command, executableWithPath, resolvePath)
         return executableWithPath
 
     def findAndCheckExecutable(self, command: Command, resolvePath: bool = False):
